@@ -129,6 +129,28 @@ Definition judge_stamped (kind bs expected lo hi : bytes) : bytes :=
   | None => str "bad:not-a-message"
   end.
 
+(* C04: a successful acknowledged send, judged without the library model: the message on
+   the wire carries a non-empty chunk id c and the peer's response is a map whose "ack"
+   entry is the string c *)
+Definition judge_ack_success (wire resp : bytes) : bytes :=
+  match spec_parse shape_any (unhex wire) with
+  | Some (m, []) =>
+      match spec_chunk m with
+      | Some c =>
+          if bytes_eqb c [] then str "bad:empty-chunk-on-wire"
+          else match parse1 (unhex resp) with
+               | Some (VMap l, _) =>
+                   match lookup_opt (str "ack") l with
+                   | Some (VStr a) => if bytes_eqb a c then str "ok" else str "bad:ack-for-another-chunk"
+                   | _ => str "bad:no-ack-entry"
+                   end
+               | _ => str "bad:response-not-a-map"
+               end
+      | None => str "bad:no-chunk-on-wire"
+      end
+  | _ => str "bad:wire-not-a-message"
+  end.
+
 Definition run_codec (e : bytes) (args : list bytes) : option bytes :=
   match args with
   | [tag; ts; rec; opt] =>
@@ -162,6 +184,7 @@ Definition run_codec (e : bytes) (args : list bytes) : option bytes :=
       if is e "et_payload" then Some (hex (et_payload (read_Z a) (read_N b)))
       else if is e "judge_consumed" then Some (judge_consumed a b)
       else if is e "judge_stream" then Some (judge_stream a b)
+      else if is e "judge_ack_success" then Some (judge_ack_success a b)
       else if is e "judge_chunk" then Some (judge_chunk a b)
       else if is e "U_message" then Some (show_dec show_message (U_message p zero_message bs))
       else if is e "U_message_ext" then Some (show_dec show_message_ext (U_message_ext p zero_message_ext bs))
